@@ -79,6 +79,12 @@ def pick_docs(exe):
     return sel, sizes
 
 
+# a "convert" of the model is any one-shot entry point in any format: they rotate so that every family x format meets every bracket shape
+CONV_VARIANTS = [("s_conv", "html"), ("s_data", "mmd"), ("d_conv", "latex"), ("e_data", "fodt"), ("s_data", "html"), ("d_data", "opml"), ("e_conv", "beamer"), ("s_data", "latex"),
+                 ("e_data", "mmd"), ("d_data", "memoir"), ("d_data", "mmd"), ("e_data", "opml"), ("d_conv", "memoir")]        # (packaged formats carry time stamps: their bytes are not comparable)
+_rot = [0]
+
+
 def script_of(h, dmap):
     """TLC history -> harness script (engine slots 0/1)"""
     out = []
@@ -87,7 +93,9 @@ def script_of(h, dmap):
         if a == "init": out.append("pinit")
         elif a == "drain": out.append("pdrain")
         elif a == "free": out.append("pfree")
-        elif a == "convert": out.append(line("conv", "s_conv", dmap[st["d"]], 0, docs.STD, 0))
+        elif a == "convert":
+            fam, fmt = CONV_VARIANTS[_rot[0] % len(CONV_VARIANTS)]; _rot[0] += 1
+            out.append(line("conv", fam, dmap[st["d"]], docs.FMT[fmt], docs.STD, 0))
         elif a == "parse": out += [line("e_new", st["e"] - 1, dmap[st["d"]], docs.STD, 0), line("e_parse", st["e"] - 1)]
         elif a == "inspect": out.append(line("e_inspect", st["e"] - 1))
         elif a == "letgo": out.append(line("e_free", st["e"] - 1))
